@@ -32,6 +32,7 @@ unprovable.  Nothing is skipped silently.
 import ast
 import json
 import os
+import re
 import sys
 
 try:
@@ -477,7 +478,7 @@ def numpy_patch_scan():
 _NP_SCAN = {}
 
 
-def name_check(r, fn, path):
+def name_check(r, fn, path, lenient=False):
     """resolve every global name of the routine; sets r.origins (sorted [(name, origin)]), reports what is not understood"""
     r.origins = []
     loc = local_names(fn)
@@ -512,7 +513,7 @@ def name_check(r, fn, path):
         exp = EXPECT_ORIGIN.get(nm)
         if exp is None and nm in deco and nm not in body_loads and o.startswith('from bct/citations.py:'):
             exp = o
-        if o != 'unresolved' and o != exp:
+        if o != 'unresolved' and o != exp and not (lenient and exp is None):
             r.bad(fn, 'the name %s resolves to `%s`%s' % (nm, o, ', expected `%s`' % exp if exp else ', which the mapping tables do not know'))
     # the definition that callers get under the routine's own name is the one extracted
     try:
@@ -621,6 +622,248 @@ def lean_fingerprint(r, users):
     out.append('theorem prim_%s_ok : primOk prim_%s = true := by\n  first | decide | fail "prim_%s_ok: the definition of %s that %s calls '
                '(%s:%d-%d) is not the recognised one"\n' % (r.name, r.name, r.name, r.name, users, os.path.basename(r.file), a, b))
     return out
+
+
+# ====================================================================== source pins
+#
+# For routines whose body is not (or only partly) interpreted, the whole normalised body (`ast.unparse` of every
+# statement: comments, blank lines, redundant parentheses and quoting style do not matter; docstring dropped) is emitted
+# as data and compared in Lean with a reference text (`Model/CoreIRPin.lean`).  A pin says nothing about what the text
+# computes; it makes every change of the body — a new branch, a reordered statement — fail an obligation, so that the
+# evidence collected for the pinned text (model correspondence, sampling) is not silently carried over to other code.
+
+class _Scope(object):
+    def __init__(self, parent):
+        self.parent = parent
+        self.bound = set()
+
+
+def _pin_renameable(fn):
+    """names of `fn` that may be renamed without changing what any occurrence denotes: bound somewhere inside `fn`, not a
+    parameter (of `fn` or of a nested function / lambda), not bound by an import, not declared global / nonlocal, and every
+    occurrence (in `fn` or in a nested scope) resolves to a binding inside `fn` (never to a module-level name or a builtin).
+    -> [name, …] in the order of the first binding in the text, or None if the function contains a class definition"""
+    params, fixed = set(), set()
+    occ = []            # (name, scope)
+    first = {}          # name -> (line, col) of the first binding
+
+    def bind(name, scope, node):
+        scope.bound.add(name)
+        occ.append((name, scope))
+        pos = (getattr(node, 'lineno', 0), getattr(node, 'col_offset', 0))
+        if name not in first or pos < first[name]:
+            first[name] = pos
+
+    class Abort(Exception):
+        pass
+
+    def args_of(a, scope):
+        for x in list(getattr(a, 'posonlyargs', [])) + a.args + a.kwonlyargs + [y for y in (a.vararg, a.kwarg) if y]:
+            params.add(x.arg)
+            scope.bound.add(x.arg)
+
+    def visit(node, scope):
+        if isinstance(node, ast.ClassDef):
+            raise Abort()
+        if isinstance(node, (ast.FunctionDef, ast.AsyncFunctionDef)):
+            bind(node.name, scope, node)
+            for d in node.decorator_list:
+                visit(d, scope)
+            for d in node.args.defaults + [k for k in node.args.kw_defaults if k is not None]:
+                visit(d, scope)
+            inner = _Scope(scope)
+            args_of(node.args, inner)
+            for st in node.body:
+                visit(st, inner)
+            return
+        if isinstance(node, ast.Lambda):
+            for d in node.args.defaults + [k for k in node.args.kw_defaults if k is not None]:
+                visit(d, scope)
+            inner = _Scope(scope)
+            args_of(node.args, inner)
+            visit(node.body, inner)
+            return
+        if isinstance(node, (ast.ListComp, ast.SetComp, ast.DictComp, ast.GeneratorExp)):
+            inner = _Scope(scope)
+            for k_, g in enumerate(node.generators):
+                visit(g.iter, scope if k_ == 0 else inner)
+                visit(g.target, inner)
+                for c in g.ifs:
+                    visit(c, inner)
+            if isinstance(node, ast.DictComp):
+                visit(node.key, inner); visit(node.value, inner)
+            else:
+                visit(node.elt, inner)
+            return
+        if isinstance(node, (ast.Global, ast.Nonlocal)):
+            fixed.update(node.names)
+            return
+        if isinstance(node, (ast.Import, ast.ImportFrom)):
+            for al in node.names:
+                nm_ = (al.asname or al.name).split('.')[0]
+                fixed.add(nm_)
+                scope.bound.add(nm_)
+            return
+        if isinstance(node, ast.ExceptHandler) and node.name:
+            bind(node.name, scope, node)
+        if isinstance(node, ast.Name):
+            if isinstance(node.ctx, (ast.Store, ast.Del)):
+                bind(node.id, scope, node)
+            else:
+                occ.append((node.id, scope))
+            return
+        for ch in ast.iter_child_nodes(node):
+            visit(ch, scope)
+    top = _Scope(None)
+    try:
+        args_of(fn.args, top)
+        for st in fn.body:
+            visit(st, top)
+    except Abort:
+        return None
+
+    def resolves(name, scope):
+        while scope is not None:
+            if name in scope.bound:
+                return True
+            scope = scope.parent
+        return False
+    bad = {nm_ for nm_, sc in occ if not resolves(nm_, sc)}
+    names = [nm_ for nm_ in first if nm_ not in params and nm_ not in fixed and nm_ not in bad]
+    return sorted(names, key=lambda nm_: first[nm_])
+
+
+def normalise_body(fn):
+    """the text a source pin compares (used for the generated pin and for the reference alike): a deep copy of the function in
+    which (1) docstrings of the function and of nested functions, other bare-string statements and `pass` statements are dropped
+    (a block left empty keeps one `pass`), (2) the renameable local names (`_pin_renameable`) are replaced by v0, v1, … in the
+    order of their first binding, (3) every statement is printed by `ast.unparse` (comments, blank lines, redundant parentheses,
+    spacing, quoting style and line breaks do not survive).  Statement order, parameters, global names, attribute names,
+    keyword-argument names, imports and literals are kept as they are.  -> list of lines"""
+    import copy
+    fn = copy.deepcopy(fn)
+
+    def clean(body):
+        out = []
+        for st in body:
+            if isinstance(st, ast.Pass):
+                continue
+            if isinstance(st, ast.Expr) and isinstance(st.value, ast.Constant) and isinstance(st.value.value, str):
+                continue
+            for fld in ('body', 'orelse', 'finalbody'):
+                if isinstance(getattr(st, fld, None), list) and (getattr(st, fld) or fld == 'body'):
+                    setattr(st, fld, clean(getattr(st, fld)))
+            for h in getattr(st, 'handlers', []) or []:
+                h.body = clean(h.body)
+            out.append(st)
+        return out or [ast.Pass()]
+    fn.body = clean(fn.body)
+    names = _pin_renameable(fn)
+    if names:
+        used = {nd.id for nd in ast.walk(fn) if isinstance(nd, ast.Name)} | {nd.arg for nd in ast.walk(fn) if isinstance(nd, ast.arg)}
+        prefix = 'v'
+        while any(re.match(r'^%s\d+$' % re.escape(prefix), u) for u in used - set(names)):
+            prefix = '_' + prefix
+        ren = {nm_: '%s%d' % (prefix, k_) for k_, nm_ in enumerate(names)}
+        for nd in ast.walk(fn):
+            if isinstance(nd, ast.Name) and nd.id in ren:
+                nd.id = ren[nd.id]
+            elif isinstance(nd, (ast.FunctionDef, ast.AsyncFunctionDef)) and nd is not fn and nd.name in ren:
+                nd.name = ren[nd.name]
+            elif isinstance(nd, ast.ExceptHandler) and nd.name in ren:
+                nd.name = ren[nd.name]
+    ast.fix_missing_locations(fn)
+    return '\n'.join(ast.unparse(st) for st in fn.body).split('\n')
+
+
+def pin_routine(path, name, fns=None):
+    """-> Routine with fields {origin, params, src (list of lines)}; names are resolved and recorded, not judged"""
+    if fns is None:
+        fns, err = parse_functions(path)
+    else:
+        err = None
+    r = Routine(name, path)
+    r.fields = {'origin': 'unresolved', 'params': '', 'src': []}
+    if name not in fns:
+        r.problems.append('%s: %s' % (name, err or 'function not found in ' + path))
+        return r
+    node = fns[name]
+    r.line = node.lineno
+    body = body_wo_doc(node)
+    r.parts = {'body': lines_of(body)}
+    try:
+        for d in node.decorator_list:
+            ok = (isinstance(d, ast.Call) and isinstance(d.func, ast.Attribute) and d.func.attr == 'dcite'
+                  and isinstance(d.func.value, ast.Name) and d.func.value.id == 'due')
+            if not ok:
+                r.bad(d, 'unrecognised decorator %s' % src_of(d))
+        if name in getattr(fns, 'rebound', {}):
+            r.bad(node, 'the module binds the name %s again at top level (line %s)' % (name, fns.rebound[name]))
+        name_check(r, node, path, lenient=True)
+        src = []
+        for ln in normalise_body(node):
+            # long lines are cut into pieces (the Lean check compares character by character)
+            src.append(ln[:96])
+            for k_ in range(96, len(ln), 96):
+                src.append('  ... ' + ln[k_:k_ + 96])
+        r.fields = {'origin': 'def %s:%s' % (rel(path), name), 'params': ast.unparse(node.args), 'src': src}
+        r.counts = {'lines': len(r.fields['src'])}
+    except Exception as e:  # noqa — an extractor crash must not look like success
+        r.problems.append('%s: extractor raised %s: %s' % (name, type(e).__name__, e))
+    return r
+
+
+def lean_pin_value(r, defname):
+    f = r.fields
+    blocks = [f['src'][k_:k_ + 12] for k_ in range(0, len(f['src']), 12)]   # blocks of 12 lines keep the Lean comparison shallow
+    return ('def %s : Bct.CoreIR.Pin.SrcPin :=\n  { name := %s, origin := %s, params := %s,\n    src := [%s],\n    origins := %s }\n'
+            % (defname, q(r.name), q(f['origin']), q(f['params']),
+               ',\n      '.join('[' + ',\n       '.join(q(x) for x in b_) + ']' for b_ in blocks), lean_origins(r)))
+
+
+def lean_pin(r):
+    """generated definition + obligation for one pinned routine (reference `Bct.CoreIR.Pin.ref_<name>`)"""
+    relb = os.path.basename(r.file)
+    a, b = r.parts.get('body', (r.line, r.line))
+    out = []
+    for p in r.problems:
+        out.append('-- NOT RECOGNISED: ' + p.replace('\n', ' '))
+    out.append('/-- `%s` (%s:%d): the normalised source of the whole body -/' % (r.name, relb, r.line))
+    nm_ = r.name.lstrip('_')
+    out.append(lean_pin_value(r, 'pin_%s' % nm_))
+    out.append('theorem %s_pin_ok : Bct.CoreIR.Pin.pinOk Bct.CoreIR.Pin.ref_%s pin_%s = true := by\n  first | decide | fail "%s_pin_ok: the body of %s '
+               '(%s:%d-%d) is not the pinned text%s"\n' % (nm_, nm_, nm_, nm_, r.name, relb, a, b,
+                                                         ' (and was not resolved by translate/cores.py)' if r.problems else ''))
+    return out
+
+
+PINNED = {
+    # family -> [(relative file, routine)]: the routines of the family and the bct functions they call that no other family interprets
+    'modq': [('bct/algorithms/modularity.py', 'modularity_und'), ('bct/algorithms/modularity.py', 'modularity_dir'),
+             ('bct/algorithms/modularity.py', 'modularity_louvain_und'), ('bct/algorithms/modularity.py', 'modularity_louvain_dir'),
+             ('bct/algorithms/modularity.py', 'ls2ci'), ('bct/algorithms/modularity.py', '_safe_squeeze'),
+             ('bct/utils/miscellaneous_utilities.py', 'get_rng')],
+    'nullm': [('bct/algorithms/reference.py', 'null_model_und_sign'), ('bct/algorithms/reference.py', 'null_model_dir_sign'),
+              ('bct/algorithms/reference.py', 'randmio_und_signed'), ('bct/algorithms/reference.py', 'randmio_dir_signed'),
+              ('bct/utils/miscellaneous_utilities.py', 'get_rng')],
+    'nbs': [('bct/nbs.py', 'nbs_bct'), ('bct/utils/miscellaneous_utilities.py', 'get_rng')],
+    'synth': [('bct/algorithms/reference.py', 'makerandCIJdegreesfixed'), ('bct/algorithms/reference.py', 'makeringlatticeCIJ'),
+              ('bct/utils/miscellaneous_utilities.py', 'get_rng')],
+}
+
+
+def pin_reference_text(families=None):
+    """Lean text of the reference pins for the current source (to refresh `Model/CoreIRPin.lean` by hand after a reviewed change)"""
+    out = []
+    seen = set()
+    for fam in (families or sorted(PINNED)):
+        for relf, name in PINNED[fam]:
+            if (relf, name) in seen:
+                continue
+            seen.add((relf, name))
+            r = pin_routine(os.path.join(common.REPO, relf), name)
+            out.append(lean_pin_value(r, 'ref_%s' % name.lstrip('_')).replace('Bct.CoreIR.Pin.SrcPin', 'SrcPin'))
+    return '\n'.join(out)
 
 
 # ====================================================================== family 'floyd'
@@ -4130,6 +4373,13 @@ class ClustX:
             a = np_call(node, 'dot', 2)
             if a and not node.keywords:
                 return '(.dot %s %s)' % (self.ex(a[0]), self.ex(a[1]))
+            a = np_call(node, 'outer', 2)
+            if a and not node.keywords:
+                return '(.outer %s %s)' % (self.ex(a[0]), self.ex(a[1]))
+            a = np_call(node, 'tile', 2)
+            if (a and not node.keywords and isinstance(a[1], ast.Tuple) and len(a[1].elts) == 2 and isinstance(a[1].elts[0], ast.Name)
+                    and const_int(a[1].elts[1]) == 1):
+                return '(.tileRows %s %s)' % (self.ex(a[0]), q(a[1].elts[0].id))
             a = np_call(node, 'sum', 1)
             if a and not node.keywords:
                 return '(.sumAll %s)' % self.ex(a[0])
@@ -4924,9 +5174,531 @@ def family_walks():
             'problems': list(r.problems) + list(rm.problems)}
 
 
+# ====================================================================== families of pinned routines
+
+PIN_MODULES = {'modq': 'CoresMod', 'nullm': 'CoresNull', 'nbs': 'CoresNbs', 'synth': 'CoresSynth'}
+
+
+def family_pinned(fam, extra=None):
+    """Gen/<module>.lean with one source pin per routine of PINNED[fam]; `extra(out)` may add semantic IRs of parts"""
+    mod = PIN_MODULES[fam]
+    rs = []
+    for relf, name in PINNED[fam]:
+        rs.append(pin_routine(os.path.join(common.REPO, relf), name))
+    imports = ['import BctVerif.Model.CoreIRPin']
+    body = []
+    problems = []
+    routines = {}
+    if extra is not None:
+        ex = extra()
+        imports += ex.get('imports', [])
+        body += ex.get('lean', [])
+        problems += ex.get('problems', [])
+        routines.update(ex.get('routines', {}))
+    out = imports + ['/-!',
+                     '# GENERATED by translate/cores.py (family %s) — do not edit.  Re-emitted from the current source on every check run.' % fam,
+                     'sources: %s' % ', '.join(sorted({r.file for r in rs})),
+                     '-/'] + (['set_option linter.unusedTactic false', 'set_option linter.unreachableTactic false'] if len(imports) > 1 else []) + [
+                     'namespace Bct.Gen.%s' % mod,
+                     'open Bct',
+                     '']
+    for r in rs:
+        out += lean_pin(r)
+        problems += list(r.problems)
+        routines[r.name + ' (pin)'] = dict(getattr(r, 'counts', {}), line=r.line, recognised=not r.problems)
+    out += body
+    out.append('end Bct.Gen.%s' % mod)
+    return {'module': 'BctVerif.Gen.%s' % mod, 'file': '%s.lean' % mod, 'text': '\n'.join(out) + '\n',
+            'sources': sorted({r.file for r in rs}), 'routines': routines, 'problems': problems}
+
+
+
+MOD_FIELDS = ['params', 'defaults', 'imports', 'pre', 'skipped', 'noneParam', 'noneCount', 'noneTarget', 'elseTarget', 'elseSource', 'post',
+              'ret0', 'ret1']
+
+
+def extract_modq(fn, path):
+    """modularity_und / modularity_dir: the statements up to the modularity matrix, the frame of the partition choice, the
+    statements after it (Model/CoreIRMod.lean: ModIR); the spectral part in between is counted, not interpreted"""
+    r = Routine(fn.name, path)
+    r.line = fn.lineno
+    a = fn.args
+    if a.vararg or a.kwarg or a.kwonlyargs or getattr(a, 'posonlyargs', []):
+        r.bad(fn, 'unexpected parameter kinds')
+    f = {'params': lst(q(x.arg) for x in a.args), 'defaults': lean_defaults(defaults_of(fn)), 'imports': '[]', 'pre': '[]', 'skipped': '0',
+         'noneParam': q('?'), 'noneCount': '0', 'noneTarget': q('?'), 'elseTarget': q('?'), 'elseSource': q('?'), 'post': '[]',
+         'ret0': q('?'), 'ret1': q('?')}
+    r.fields = f
+    body = body_wo_doc(fn)
+    r.parts = {'body': lines_of(body)}
+    x = ClustX()
+    try:
+        ifs = [i for i, st in enumerate(body) if isinstance(st, ast.If)]
+        if len(ifs) != 1 or not isinstance(body[-1], ast.Return):
+            raise Unrec(fn, 'expected exactly one top-level `if` and a final `return`')
+        ii = ifs[0]
+        br = body[ii]
+        t = br.test
+        if not (isinstance(t, ast.Compare) and len(t.ops) == 1 and isinstance(t.ops[0], ast.Is) and isinstance(t.left, ast.Name)
+                and isinstance(t.comparators[0], ast.Constant) and t.comparators[0].value is None):
+            raise Unrec(br, 'expected `if <parameter> is None:`')
+        f['noneParam'] = q(t.left.id)
+        last = br.body[-1] if br.body else None
+        if not (isinstance(last, ast.Assign) and len(last.targets) == 1 and isinstance(last.targets[0], ast.Name)):
+            raise Unrec(br, 'expected the `None` branch to end with an assignment to a name')
+        f['noneCount'], f['noneTarget'] = '%d' % len(br.body), q(last.targets[0].id)
+        e0 = br.orelse[0] if len(br.orelse) == 1 else None
+        if not (isinstance(e0, ast.Assign) and len(e0.targets) == 1 and isinstance(e0.targets[0], ast.Name) and isinstance(e0.value, ast.Name)):
+            raise Unrec(br, 'expected `else: ci = kci`')
+        f['elseTarget'], f['elseSource'] = q(e0.targets[0].id), q(e0.value.id)
+        # imports, then the statements the array language understands, then the uninterpreted rest up to the `if`
+        imports = {}
+        k_ = 0
+        while k_ < ii and isinstance(body[k_], ast.ImportFrom) and len(body[k_].names) == 1 and body[k_].level == 0 and body[k_].module:
+            al = body[k_].names[0]
+            imports[al.asname or al.name] = 'external %s:%s' % (body[k_].module, al.name)
+            k_ += 1
+        f['imports'] = lean_defaults(sorted(imports.items()))
+        pre = []
+        while k_ < ii:
+            try:
+                pre.append(x.stmt(body[k_]))
+            except Unrec:
+                break
+            k_ += 1
+        f['pre'] = '[' + ',\n      '.join(pre) + ']'
+        f['skipped'] = '%d' % (ii - k_)
+        post = []
+        for st in body[ii + 1:-1]:
+            post.append(x.stmt(st))
+        f['post'] = '[' + ',\n      '.join(post) + ']'
+        rv = body[-1].value
+        if not (isinstance(rv, ast.Tuple) and len(rv.elts) == 2 and all(isinstance(e, ast.Name) for e in rv.elts)):
+            raise Unrec(body[-1], 'expected `return ci, q`')
+        f['ret0'], f['ret1'] = q(rv.elts[0].id), q(rv.elts[1].id)
+        r.counts = {'pre': len(pre), 'skipped': ii - k_, 'post': len(post)}
+    except Unrec as e:
+        r.bad(e.node if hasattr(e.node, 'lineno') else fn, e.msg)
+    return r
+
+
+AGG_FIELDS = ['dim', 'dimOf', 'newW', 'nz1', 'nz2', 'iVar', 'iN', 'jVar', 'jLo', 'jN', 'tmp', 'sumMat', 'labA', 'idxA', 'offA', 'labB', 'idxB',
+              'offB', 'stores', 'rebind', 'qList', 'qAppend', 'qList2', 'qIdx', 'tr', 's1', 'gam', 'dl', 's2', 'dr', 's3']
+AGG_DEFAULT = dict({k: q('?') for k in AGG_FIELDS}, jLo='none', tmp='none', offA='99', offB='99', stores='[]', rebind='none', qAppend='99')
+
+
+def extract_agg(fn, path):
+    """the aggregation step and `q[h]` in the body of `while True:` of modularity_louvain_und / _dir (Model/CoreIRMod.lean: AggIR)"""
+    r = Routine(fn.name, path)
+    r.line = fn.lineno
+    f = dict(AGG_DEFAULT)
+    r.fields = f
+
+    def nm(node, what):
+        if isinstance(node, ast.Name):
+            return q(node.id)
+        raise Unrec(node, 'expected a name as %s, found %s' % (what, src_of(node)))
+
+    def assign(st, what):
+        if isinstance(st, ast.Assign) and len(st.targets) == 1:
+            return st.targets[0], st.value
+        raise Unrec(st, 'expected `%s`' % what)
+
+    def block_sum(v, what):
+        """np.sum(W[np.ix_(m == i + 1, m == j + 1)]) -> fields"""
+        sm = np_call(v, 'sum', 1)
+        sub = sm[0] if sm and not v.keywords else None
+        ix = np_call(sub.slice, 'ix_', 2) if isinstance(sub, ast.Subscript) else None
+        if not (ix and not sub.slice.keywords):
+            raise Unrec(v, 'expected `%s`' % what)
+        out = [nm(sub.value, 'matrix')]
+        for c in ix:
+            if not (isinstance(c, ast.Compare) and len(c.ops) == 1 and isinstance(c.ops[0], ast.Eq) and isinstance(c.comparators[0], ast.BinOp)
+                    and isinstance(c.comparators[0].op, ast.Add) and const_int(c.comparators[0].right) is not None):
+                raise Unrec(v, 'expected `%s`' % what)
+            out += [nm(c.left, 'labels'), nm(c.comparators[0].left, 'index'), lint(const_int(c.comparators[0].right))]
+        return out
+    try:
+        wl = [st for st in body_wo_doc(fn) if isinstance(st, ast.While)]
+        if len(wl) != 1 or not (isinstance(wl[0].test, ast.Constant) and wl[0].test.value is True):
+            raise Unrec(fn, 'expected exactly one top-level `while True:`')
+        wb = wl[0].body
+        start = [k_ for k_, st in enumerate(wb) if isinstance(st, ast.Assign) and np_call(st.value, 'max', 1)]
+        if len(start) != 1:
+            raise Unrec(wl[0], 'expected exactly one `n = np.max(m)` in the body of `while True:`')
+        k0 = start[0]
+        end = [k_ for k_, st in enumerate(wb) if k_ > k0 and isinstance(st, ast.Assign) and isinstance(st.targets[0], ast.Subscript)
+               and isinstance(st.value, ast.BinOp) and isinstance(st.value.op, ast.Sub) and isinstance(st.value.left, ast.BinOp)
+               and np_call(st.value.left.left, 'trace', 1)]
+        if len(end) != 1:
+            raise Unrec(wl[0], 'expected exactly one `q[h] = np.trace(W) / s - …` after `n = np.max(m)`')
+        blk = wb[k0:end[0] + 1]
+        r.parts = {'body': lines_of(blk)}
+        r.counts = {'statements': len(blk)}
+        if len(blk) not in (5, 6):
+            raise Unrec(blk[0], 'expected five or six statements from `n = np.max(m)` to `q[h] = …`, found %d' % len(blk))
+        t, v = assign(blk[0], 'n = np.max(m)')
+        f['dim'], f['dimOf'] = nm(t, 'target'), nm(np_call(v, 'max', 1)[0], 'labels')
+        t, v = assign(blk[1], 'W1 = np.zeros((n, n))')
+        z = np_call(v, 'zeros', 1)
+        if not (z and not v.keywords and isinstance(z[0], ast.Tuple) and len(z[0].elts) == 2):
+            raise Unrec(blk[1], 'expected `W1 = np.zeros((n, n))`')
+        f['newW'], f['nz1'], f['nz2'] = nm(t, 'target'), nm(z[0].elts[0], 'dimension'), nm(z[0].elts[1], 'dimension')
+        lo = blk[2]
+        it = lo.iter if isinstance(lo, ast.For) else None
+        if not (it is not None and not lo.orelse and isinstance(it, ast.Call) and isinstance(it.func, ast.Name) and it.func.id == 'range'
+                and len(it.args) == 1 and not it.keywords and len(lo.body) == 1 and isinstance(lo.body[0], ast.For)):
+            raise Unrec(lo, 'expected `for i in range(n):` with one nested loop')
+        f['iVar'], f['iN'] = nm(lo.target, 'loop variable'), nm(it.args[0], 'bound')
+        li = lo.body[0]
+        it = li.iter
+        if not (not li.orelse and isinstance(it, ast.Call) and isinstance(it.func, ast.Name) and it.func.id == 'range' and len(it.args) in (1, 2)
+                and not it.keywords):
+            raise Unrec(li, 'expected `for j in range(i, n):` or `for j in range(n):`')
+        f['jVar'] = nm(li.target, 'loop variable')
+        if len(it.args) == 2:
+            f['jLo'], f['jN'] = '(some %s)' % nm(it.args[0], 'start'), nm(it.args[1], 'bound')
+        else:
+            f['jLo'], f['jN'] = 'none', nm(it.args[0], 'bound')
+        ib = li.body
+        stores = []
+
+        def store(st, val):
+            t_, v_ = assign(st, 'W1[i, j] = …')
+            if not (isinstance(t_, ast.Subscript) and isinstance(t_.slice, ast.Tuple) and len(t_.slice.elts) == 2):
+                raise Unrec(st, 'expected `W1[i, j] = …`')
+            if val is not None and not (isinstance(v_, ast.Name) and q(v_.id) == val):
+                raise Unrec(st, 'expected the stored value to be %s' % val)
+            stores.append('(%s, %s, %s)' % (nm(t_.value, 'matrix'), nm(t_.slice.elts[0], 'row'), nm(t_.slice.elts[1], 'column')))
+            return v_
+        if isinstance(ib[0], ast.Assign) and isinstance(ib[0].targets[0], ast.Name):
+            t, v = assign(ib[0], 'wp = np.sum(W[np.ix_(m == i + 1, m == j + 1)])')
+            f['tmp'] = '(some %s)' % nm(t, 'target')
+            bs = block_sum(v, 'wp = np.sum(W[np.ix_(m == i + 1, m == j + 1)])')
+            for st in ib[1:]:
+                store(st, nm(t, 'target'))
+        else:
+            if len(ib) != 1:
+                raise Unrec(li, 'expected one store in the inner loop')
+            v = store(ib[0], None)
+            bs = block_sum(v, 'W1[i, j] = np.sum(W[np.ix_(m == i + 1, m == j + 1)])')
+        f['sumMat'], f['labA'], f['idxA'], f['offA'], f['labB'], f['idxB'], f['offB'] = bs
+        f['stores'] = '[' + ', '.join(stores) + ']'
+        rest = blk[3:]
+        if len(rest) == 3:
+            t, v = assign(rest[0], 'W = W1')
+            f['rebind'] = '(some (%s, %s))' % (nm(t, 'target'), nm(v, 'source'))
+            rest = rest[1:]
+        ap = rest[0]
+        if not (isinstance(ap, ast.Expr) and isinstance(ap.value, ast.Call) and isinstance(ap.value.func, ast.Attribute)
+                and ap.value.func.attr == 'append' and len(ap.value.args) == 1 and const_int(ap.value.args[0]) is not None):
+            raise Unrec(ap, 'expected `q.append(0)`')
+        f['qList'], f['qAppend'] = nm(ap.value.func.value, 'list'), lint(const_int(ap.value.args[0]))
+        t, v = assign(rest[1], 'q[h] = np.trace(W) / s - gamma * np.sum(np.dot(W / s, W / s))')
+        w_ = 'q[h] = np.trace(W) / s - gamma * np.sum(np.dot(W / s, W / s))'
+        if not (isinstance(t, ast.Subscript) and isinstance(v.right, ast.BinOp) and isinstance(v.right.op, ast.Mult)
+                and isinstance(v.left.op, ast.Div)):
+            raise Unrec(rest[1], 'expected `%s`' % w_)
+        f['qList2'], f['qIdx'] = nm(t.value, 'list'), nm(t.slice, 'index')
+        f['tr'], f['s1'] = nm(np_call(v.left.left, 'trace', 1)[0], 'matrix'), nm(v.left.right, 'total weight')
+        f['gam'] = nm(v.right.left, 'gamma')
+        sm = np_call(v.right.right, 'sum', 1)
+        dt = np_call(sm[0], 'dot', 2) if sm and not v.right.right.keywords else None
+        if not (dt and all(isinstance(d_, ast.BinOp) and isinstance(d_.op, ast.Div) for d_ in dt)):
+            raise Unrec(rest[1], 'expected `%s`' % w_)
+        f['dl'], f['s2'], f['dr'], f['s3'] = nm(dt[0].left, 'matrix'), nm(dt[0].right, 'total weight'), nm(dt[1].left, 'matrix'), nm(dt[1].right, 'total weight')
+    except Unrec as e:
+        r.bad(e.node if hasattr(e.node, 'lineno') else fn, e.msg)
+    return r
+
+
+def modq_extra():
+    path = os.path.join(common.REPO, 'bct', 'algorithms', 'modularity.py')
+    fns, err = parse_functions(path)
+    out, problems, routines = [], [], {}
+    for name, ref, link, model in (('modularity_und', 'refUnd', 'link_mod_und', 'modularityUndGiven'),
+                                   ('modularity_dir', 'refDir', 'link_mod_dir', 'modularityDirGiven')):
+        if name not in fns:
+            r = Routine(name, path); r.problems.append('%s: %s' % (name, err or 'function not found in ' + path))
+            r.fields = None
+        else:
+            try:
+                r = extract_modq(fns[name], path)
+                check_header(r, fns[name], fns)
+                r.problems = [p_ for p_ in r.problems if 'which the mapping tables do not know' not in p_]
+            except Exception as e:  # noqa — an extractor crash must not look like success
+                r = Routine(name, path); r.problems.append('%s: extractor raised %s: %s' % (name, type(e).__name__, e))
+                r.fields = None
+        f = r.fields or {'params': '[]', 'defaults': '[]', 'imports': '[]', 'pre': '[]', 'skipped': '0', 'noneParam': q('?'), 'noneCount': '0',
+                         'noneTarget': q('?'), 'elseTarget': q('?'), 'elseSource': q('?'), 'post': '[]', 'ret0': q('?'), 'ret1': q('?')}
+        relb = os.path.basename(path)
+        a, b = r.parts.get('body', (r.line, r.line))
+        for p in r.problems:
+            out.append('-- NOT RECOGNISED: ' + p.replace('\n', ' '))
+        out.append('/-- `%s` (%s:%d): the modularity matrix, the frame of the partition choice, `q` -/' % (name, relb, r.line))
+        out.append('def ir_%s : Bct.CoreIR.Mod.ModIR :=\n  { name := %s, recognised := %s, origins := %s,\n    %s }\n'
+                   % (name, q(name), 'true' if not r.problems else 'false', lean_origins(r), ',\n    '.join('%s := %s' % (k, f[k]) for k in MOD_FIELDS)))
+        out.append('theorem %s_ok : Bct.CoreIR.Mod.modOk Bct.CoreIR.Mod.%s ir_%s = true := by\n  first | decide | fail "%s_ok: the statements extracted '
+                   'from %s (%s:%d-%d) %s"\n' % (name, ref, name, name, name, relb, a, b,
+                                                'were not all recognised by translate/cores.py' if r.problems else 'are not the expected program'))
+        out.append('theorem %s_computes {n : Nat} (W : Bct.Modularity.RMat n) (γ : Rat) (c : Fin n → Int) (hs : Bct.Modularity.total W ≠ 0) :\n'
+                   '    Bct.CoreIR.Mod.runQ ir_%s (Bct.Cores.Clust.embA W) γ (Bct.Cores.Mod.embC c) = .sc (.num (Bct.Modularity.%s W γ c)) :=\n'
+                   '  Bct.Cores.Mod.%s _ %s_ok W γ c hs\n' % (name, name, model, link, name))
+        problems += list(r.problems)
+        routines[name + ' (matrix and q)'] = dict(getattr(r, 'counts', {}), line=r.line, recognised=not r.problems)
+    for name, ref, link, model in (('modularity_louvain_und', 'refAggUnd', 'link_agg_und', 'aggUpper'),
+                                   ('modularity_louvain_dir', 'refAggDir', 'link_agg_dir', 'aggFull')):
+        if name not in fns:
+            r = Routine(name, path); r.problems.append('%s: %s' % (name, err or 'function not found in ' + path))
+            r.fields = None
+        else:
+            try:
+                r = extract_agg(fns[name], path)
+            except Exception as e:  # noqa — an extractor crash must not look like success
+                r = Routine(name, path); r.problems.append('%s: extractor raised %s: %s' % (name, type(e).__name__, e))
+                r.fields = None
+        f = r.fields or dict(AGG_DEFAULT)
+        relb = os.path.basename(path)
+        a, b = r.parts.get('body', (r.line, r.line))
+        for p in r.problems:
+            out.append('-- NOT RECOGNISED: ' + p.replace('\n', ' '))
+        out.append('/-- the aggregation step and `q[h]` of `%s` (%s:%d-%d) -/' % (name, relb, a, b))
+        out.append('def agg_%s : Bct.CoreIR.Mod.AggIR :=\n  { name := %s, recognised := %s,\n    %s }\n'
+                   % (name, q(name), 'true' if not r.problems else 'false', ', '.join('%s := %s' % (k, f[k]) for k in AGG_FIELDS)))
+        out.append('theorem %s_agg_ok : Bct.CoreIR.Mod.aggOk Bct.CoreIR.Mod.%s agg_%s = true := by\n  first | decide | fail "%s_agg_ok: the '
+                   'statements from `n = np.max(m)` to `q[h] = …` extracted from %s (%s:%d-%d) %s"\n'
+                   % (name, ref, name, name, name, relb, a, b,
+                      'were not all recognised by translate/cores.py' if r.problems else 'are not the expected program'))
+        out.append('theorem %s_agg_computes {n : Nat} (W : Bct.Modularity.RMat n) (m : Bct.Modularity.Lab n) (s γ : Rat) :\n'
+                   '    Bct.CoreIR.Mod.runAgg agg_%s "W" "m" "s" "gamma" W (Bct.Cores.Mod.pyLab m) s γ =\n'
+                   '      some (Bct.Modularity.%s W m, Bct.Modularity.qTraceDot (Bct.Modularity.%s W m) s γ) :=\n'
+                   '  Bct.Cores.Mod.%s _ %s_agg_ok W m s γ\n' % (name, name, model, model, link, name))
+        problems += list(r.problems)
+        routines[name + ' (aggregation step)'] = dict(getattr(r, 'counts', {}), line=r.line, recognised=not r.problems)
+    return {'imports': ['import BctVerif.Props.CoresMod'], 'lean': out, 'problems': problems, 'routines': routines}
+
+
+def family_modq():
+    return family_pinned('modq', modq_extra)
+
+
+def family_nullm():
+    return family_pinned('nullm')
+
+
+def family_nbs():
+    return family_pinned('nbs')
+
+
+
+RING_FIELDS = ['params', 'defaults', 'rng', 'rngCallee', 'rngArg', 'cij', 'z1', 'z2', 'ones', 'o1', 'o2', 'kk', 'kk0', 'count', 'count0', 'seq',
+               'seqLo', 'seqHi', 'seq2', 's2Hi', 's2HiOff', 's2Lo', 's2Step', 'wL', 'wR', 'incVar', 'incBy', 'd1', 'd1a', 'd1b', 'd2', 'd2a',
+               'd2b', 'dT', 'm1', 'm2', 'm3', 'm4', 'clip', 'augL', 'augR', 'kkT', 'kkOf', 'over', 'overL', 'overR', 'overTest', 'wi', 'wj',
+               'whereOf', 'rp', 'rpRng', 'rpOf', 'ii', 'iiN', 'setMat', 'si', 'srp1', 'sii1', 'sj', 'srp2', 'sii2', 'setVal', 'ret']
+RING_NUM = {'kk0', 'count0', 'seqLo', 's2HiOff', 's2Lo', 's2Step', 'incBy', 'clip', 'setVal'}
+RING_TRIU = {'d1a', 'd1b', 'd2a', 'd2b'}
+
+
+def extract_ring(fn, path):
+    """makeringlatticeCIJ: statements matched positionally (Model/CoreIRSynth.lean: RingIR)"""
+    r = Routine(fn.name, path)
+    r.line = fn.lineno
+    a = fn.args
+    if a.vararg or a.kwarg or a.kwonlyargs or getattr(a, 'posonlyargs', []):
+        r.bad(fn, 'unexpected parameter kinds')
+    tz = '{ mat := "?", seq := "?", cnt := "?", off := 99, plus := 99 }'
+    f = {k: ('99' if k in RING_NUM else tz if k in RING_TRIU else q('?')) for k in RING_FIELDS}
+    f['params'] = lst(q(x.arg) for x in a.args)
+    f['defaults'] = lean_defaults(defaults_of(fn))
+    r.fields = f
+    body = body_wo_doc(fn)
+    r.parts = {'body': lines_of(body)}
+    r.counts = {'body': len(body)}
+
+    def nm(node, what):
+        if isinstance(node, ast.Name):
+            return q(node.id)
+        raise Unrec(node, 'expected a name as %s, found %s' % (what, src_of(node)))
+
+    def nat(node, what):
+        z = const_int(node)
+        if z is None or z < 0:
+            raise Unrec(node, 'expected a natural number as %s, found %s' % (what, src_of(node)))
+        return '%d' % z
+
+    def assign(st, what):
+        if isinstance(st, ast.Assign) and len(st.targets) == 1:
+            return st.targets[0], st.value
+        raise Unrec(st, 'expected `%s`' % what)
+
+    def square(v, fn_, what):
+        c = np_call(v, fn_, 1)
+        if not (c and not v.keywords and isinstance(c[0], ast.Tuple) and len(c[0].elts) == 2):
+            raise Unrec(v, 'expected `%s`' % what)
+        return nm(c[0].elts[0], 'dimension'), nm(c[0].elts[1], 'dimension')
+
+    def triu(node):
+        """np.triu(M, seq[count - off] (+ plus)) -> Lean Triu"""
+        c = np_call(node, 'triu', 2)
+        if not c or node.keywords:
+            raise Unrec(node, 'expected `np.triu(M, seq[count - 1])`')
+        e, plus = c[1], 0
+        if isinstance(e, ast.BinOp) and isinstance(e.op, ast.Add) and const_int(e.right) is not None and const_int(e.right) >= 0:
+            e, plus = e.left, const_int(e.right)
+        if not (isinstance(e, ast.Subscript) and isinstance(e.slice, ast.BinOp) and isinstance(e.slice.op, ast.Sub)
+                and const_int(e.slice.right) is not None and const_int(e.slice.right) >= 0):
+            raise Unrec(node, 'expected `np.triu(M, seq[count - 1])`')
+        return '{ mat := %s, seq := %s, cnt := %s, off := %d, plus := %d }' % (nm(c[0], 'matrix'), nm(e.value, 'range'),
+                                                                             nm(e.slice.left, 'counter'), const_int(e.slice.right), plus)
+
+    def diff(st, what):
+        t, v = assign(st, what)
+        if not (isinstance(v, ast.BinOp) and isinstance(v.op, ast.Sub)):
+            raise Unrec(st, 'expected `%s`' % what)
+        return nm(t, 'target'), triu(v.left), triu(v.right)
+
+    def idx2(node):
+        """i[rp[ii]] -> (i, rp, ii)"""
+        if (isinstance(node, ast.Subscript) and isinstance(node.slice, ast.Subscript)):
+            return nm(node.value, 'index array'), nm(node.slice.value, 'permutation'), nm(node.slice.slice, 'loop variable')
+        raise Unrec(node, 'expected `i[rp[ii]]`')
+    try:
+        if len(body) != 11:
+            raise Unrec(fn, 'expected exactly 11 statements, found %d' % len(body))
+        s0, s1, s2, s3, s4, s5, s6, s7, s8, s9, s10 = body
+        t, v = assign(s0, 'rng = get_rng(seed)')
+        if not (isinstance(v, ast.Call) and isinstance(v.func, ast.Name) and len(v.args) == 1 and not v.keywords):
+            raise Unrec(s0, 'expected `rng = get_rng(seed)`')
+        f['rng'], f['rngCallee'], f['rngArg'] = nm(t, 'target'), q(v.func.id), nm(v.args[0], 'argument')
+        t, v = assign(s1, 'CIJ = np.zeros((n, n))')
+        f['cij'] = nm(t, 'target'); f['z1'], f['z2'] = square(v, 'zeros', 'CIJ = np.zeros((n, n))')
+        t, v = assign(s2, 'CIJ1 = np.ones((n, n))')
+        f['ones'] = nm(t, 'target'); f['o1'], f['o2'] = square(v, 'ones', 'CIJ1 = np.ones((n, n))')
+        t, v = assign(s3, 'kk = 0'); f['kk'], f['kk0'] = nm(t, 'target'), nat(v, 'initial value')
+        t, v = assign(s4, 'count = 0'); f['count'], f['count0'] = nm(t, 'target'), nat(v, 'initial value')
+        t, v = assign(s5, 'seq = range(1, n)')
+        if not (isinstance(v, ast.Call) and isinstance(v.func, ast.Name) and v.func.id == 'range' and len(v.args) == 2 and not v.keywords):
+            raise Unrec(s5, 'expected `seq = range(1, n)`')
+        f['seq'], f['seqLo'], f['seqHi'] = nm(t, 'target'), nat(v.args[0], 'start'), nm(v.args[1], 'stop')
+        t, v = assign(s6, 'seq2 = range(n - 1, 0, -1)')
+        if not (isinstance(v, ast.Call) and isinstance(v.func, ast.Name) and v.func.id == 'range' and len(v.args) == 3 and not v.keywords
+                and isinstance(v.args[0], ast.BinOp) and isinstance(v.args[0].op, ast.Sub) and const_int(v.args[2]) is not None):
+            raise Unrec(s6, 'expected `seq2 = range(n - 1, 0, -1)`')
+        f['seq2'], f['s2Hi'], f['s2HiOff'] = nm(t, 'target'), nm(v.args[0].left, 'start'), nat(v.args[0].right, 'offset')
+        f['s2Lo'], f['s2Step'] = nat(v.args[1], 'stop'), lint(const_int(v.args[2]))
+        if not (isinstance(s7, ast.While) and not s7.orelse and isinstance(s7.test, ast.Compare) and len(s7.test.ops) == 1
+                and isinstance(s7.test.ops[0], ast.Lt) and len(s7.body) == 6):
+            raise Unrec(s7, 'expected `while kk < k:` with six statements')
+        f['wL'], f['wR'] = nm(s7.test.left, 'left side'), nm(s7.test.comparators[0], 'right side')
+        b0, b1, b2, b3, b4, b5 = s7.body
+        if not (isinstance(b0, ast.AugAssign) and isinstance(b0.op, ast.Add)):
+            raise Unrec(b0, 'expected `count += 1`')
+        f['incVar'], f['incBy'] = nm(b0.target, 'target'), nat(b0.value, 'increment')
+        f['d1'], f['d1a'], f['d1b'] = diff(b1, 'dCIJ = np.triu(CIJ1, seq[count - 1]) - np.triu(CIJ1, seq[count - 1] + 1)')
+        f['d2'], f['d2a'], f['d2b'] = diff(b2, 'dCIJ2 = np.triu(CIJ1, seq2[count - 1]) - np.triu(CIJ1, seq2[count - 1] + 1)')
+        w3 = 'dCIJ = np.minimum(dCIJ + dCIJ.T + dCIJ2 + dCIJ2.T, 1)'
+        t, v = assign(b3, w3)
+        mn = np_call(v, 'minimum', 2)
+        e = mn[0] if mn and not v.keywords else None
+
+        def tr(x_):
+            if isinstance(x_, ast.Attribute) and x_.attr == 'T':
+                return nm(x_.value, 'transposed matrix')
+            raise Unrec(x_, 'expected `%s`' % w3)
+        if not (isinstance(e, ast.BinOp) and isinstance(e.op, ast.Add) and isinstance(e.left, ast.BinOp) and isinstance(e.left.op, ast.Add)
+                and isinstance(e.left.left, ast.BinOp) and isinstance(e.left.left.op, ast.Add)):
+            raise Unrec(b3, 'expected `%s`' % w3)
+        f['dT'], f['m1'], f['m2'], f['m3'], f['m4'] = nm(t, 'target'), nm(e.left.left.left, 'summand'), tr(e.left.left.right), nm(e.left.right, 'summand'), tr(e.right)
+        f['clip'] = nat(mn[1], 'bound')
+        if not (isinstance(b4, ast.AugAssign) and isinstance(b4.op, ast.Add)):
+            raise Unrec(b4, 'expected `CIJ += dCIJ`')
+        f['augL'], f['augR'] = nm(b4.target, 'target'), nm(b4.value, 'summand')
+        t, v = assign(b5, 'kk = int(np.sum(CIJ))')
+        sm = np_call(v.args[0], 'sum', 1) if (isinstance(v, ast.Call) and isinstance(v.func, ast.Name) and v.func.id == 'int'
+                                                and len(v.args) == 1 and not v.keywords) else None
+        if not (sm and not v.args[0].keywords):
+            raise Unrec(b5, 'expected `kk = int(np.sum(CIJ))`')
+        f['kkT'], f['kkOf'] = nm(t, 'target'), nm(sm[0], 'summed matrix')
+        t, v = assign(s8, 'overby = kk - k')
+        if not (isinstance(v, ast.BinOp) and isinstance(v.op, ast.Sub)):
+            raise Unrec(s8, 'expected `overby = kk - k`')
+        f['over'], f['overL'], f['overR'] = nm(t, 'target'), nm(v.left, 'minuend'), nm(v.right, 'subtrahend')
+        if not (isinstance(s9, ast.If) and not s9.orelse and len(s9.body) == 3):
+            raise Unrec(s9, 'expected `if overby:` with three statements and no `else`')
+        f['overTest'] = nm(s9.test, 'test')
+        c0, c1, c2 = s9.body
+        t, v = assign(c0, 'i, j = np.where(dCIJ)')
+        wh = np_call(v, 'where', 1)
+        if not (isinstance(t, ast.Tuple) and len(t.elts) == 2 and wh and not v.keywords):
+            raise Unrec(c0, 'expected `i, j = np.where(dCIJ)`')
+        f['wi'], f['wj'], f['whereOf'] = nm(t.elts[0], 'row indices'), nm(t.elts[1], 'column indices'), nm(wh[0], 'matrix')
+        t, v = assign(c1, 'rp = rng.permutation(np.size(i))')
+        sz = np_call(v.args[0], 'size', 1) if (isinstance(v, ast.Call) and isinstance(v.func, ast.Attribute) and v.func.attr == 'permutation'
+                                                 and len(v.args) == 1 and not v.keywords) else None
+        if not (sz and not v.args[0].keywords):
+            raise Unrec(c1, 'expected `rp = rng.permutation(np.size(i))`')
+        f['rp'], f['rpRng'], f['rpOf'] = nm(t, 'target'), nm(v.func.value, 'generator'), nm(sz[0], 'index array')
+        it = c2.iter if isinstance(c2, ast.For) else None
+        if not (it is not None and not c2.orelse and isinstance(it, ast.Call) and isinstance(it.func, ast.Name) and it.func.id == 'range'
+                and len(it.args) == 1 and not it.keywords and len(c2.body) == 1):
+            raise Unrec(c2, 'expected `for ii in range(overby):` with one statement')
+        f['ii'], f['iiN'] = nm(c2.target, 'loop variable'), nm(it.args[0], 'bound')
+        t, v = assign(c2.body[0], 'CIJ[i[rp[ii]], j[rp[ii]]] = 0')
+        if not (isinstance(t, ast.Subscript) and isinstance(t.slice, ast.Tuple) and len(t.slice.elts) == 2 and const_int(v) is not None):
+            raise Unrec(c2.body[0], 'expected `CIJ[i[rp[ii]], j[rp[ii]]] = 0`')
+        f['setMat'] = nm(t.value, 'matrix')
+        f['si'], f['srp1'], f['sii1'] = idx2(t.slice.elts[0])
+        f['sj'], f['srp2'], f['sii2'] = idx2(t.slice.elts[1])
+        f['setVal'] = lint(const_int(v))
+        if not (isinstance(s10, ast.Return) and s10.value is not None):
+            raise Unrec(s10, 'expected `return CIJ`')
+        f['ret'] = nm(s10.value, 'returned value')
+    except Unrec as e:
+        r.bad(e.node if hasattr(e.node, 'lineno') else fn, e.msg)
+    return r
+
+
+def synth_extra():
+    path = os.path.join(common.REPO, 'bct', 'algorithms', 'reference.py')
+    fns, err = parse_functions(path)
+    name = 'makeringlatticeCIJ'
+    if name not in fns:
+        r = Routine(name, path); r.problems.append('%s: %s' % (name, err or 'function not found in ' + path))
+        r.fields = None
+    else:
+        try:
+            r = extract_ring(fns[name], path)
+            check_header(r, fns[name], fns)
+        except Exception as e:  # noqa — an extractor crash must not look like success
+            r = Routine(name, path); r.problems.append('%s: extractor raised %s: %s' % (name, type(e).__name__, e))
+            r.fields = None
+    tz = '{ mat := "?", seq := "?", cnt := "?", off := 99, plus := 99 }'
+    f = r.fields or dict({k: ('99' if k in RING_NUM else tz if k in RING_TRIU else q('?')) for k in RING_FIELDS}, params='[]', defaults='[]')
+    relb = os.path.basename(path)
+    a, b = r.parts.get('body', (r.line, r.line))
+    out = []
+    for p in r.problems:
+        out.append('-- NOT RECOGNISED: ' + p.replace('\n', ' '))
+    out.append('/-- `makeringlatticeCIJ` (%s:%d): every statement, one field per name and literal -/' % (relb, r.line))
+    out.append('def ir_makeringlatticeCIJ : Bct.CoreIR.Synth.RingIR :=\n  { recognised := %s, origins := %s,\n    %s }\n'
+               % ('true' if not r.problems else 'false', lean_origins(r), ',\n    '.join('%s := %s' % (k, f[k]) for k in RING_FIELDS)))
+    out.append('theorem makeringlatticeCIJ_ok : Bct.CoreIR.Synth.ringOk ir_makeringlatticeCIJ = true := by\n  first | decide | fail '
+               '"makeringlatticeCIJ_ok: the statements extracted from makeringlatticeCIJ (%s:%d-%d) %s"\n'
+               % (relb, a, b, 'were not all recognised by translate/cores.py' if r.problems else 'are not the expected program'))
+    out.append('theorem makeringlatticeCIJ_computes {n : Nat} (k : Nat) (ds : List Nat) :\n'
+               '    Bct.CoreIR.Synth.runRing (n := n) ir_makeringlatticeCIJ n k ds = Bct.Synth.ringLattice n k ds :=\n'
+               '  Bct.Cores.Synth.link_makeringlattice _ makeringlatticeCIJ_ok k ds\n')
+    return {'imports': ['import BctVerif.Props.CoresSynth'], 'lean': out, 'problems': list(r.problems),
+            'routines': {name: dict(getattr(r, 'counts', {}), line=r.line, recognised=not r.problems)}}
+
+
+def family_synth():
+    return family_pinned('synth', synth_extra)
+
+
 # ====================================================================== entry points
 
-FAMILIES = {'floyd': family_floyd, 'peel': family_peel, 'util': family_util, 'comp': family_comp, 'dijk': family_dijk, 'path': family_path, 'bin': family_bin, 'bfs': family_bfs, 'reach': family_reach, 'betw': family_betw, 'clust': family_clust, 'char': family_char, 'eff': family_eff, 'walks': family_walks}
+FAMILIES = {'floyd': family_floyd, 'peel': family_peel, 'util': family_util, 'comp': family_comp, 'dijk': family_dijk, 'path': family_path, 'bin': family_bin, 'bfs': family_bfs, 'reach': family_reach, 'betw': family_betw, 'clust': family_clust, 'char': family_char, 'eff': family_eff, 'walks': family_walks, 'modq': family_modq, 'nullm': family_nullm, 'nbs': family_nbs, 'synth': family_synth}
 
 
 def write_if_changed(path, text):
